@@ -154,3 +154,37 @@ Lemma('packing', [('B', t.ARR), ('bo', t.INT), ('Y', t.ARR), ('yo', t.INT), ('n'
       hints=lambda v: [LEMMAS['bits_append_byte'].stmt({'B': v['B'], 'lo': v['bo'], 'mid': t.add(v['bo'], t.mul(I(8), t.sub(v['n'], t.ONE)))})],
       defs=lambda v: [unfold_be(v['Y'], v['yo'], t.add(v['yo'], v['n'])), unfold_be(v['Y'], v['yo'], v['yo']), unfold_bits(v['B'], v['bo'], v['bo'])],
       doc='big-endian value of the packed bytes = MSB-first value of the bit string')
+
+
+def enumerate_bit_macros(C):
+    """Bitwise / Bytewise choose the pre-read implementation (Transformed) for sized inner constructs and the streaming one
+    (Restreamed) otherwise, always with the verified helpers bytes2bits / bits2bytes and the right units (finite table on the
+    real objects)"""
+    from construct.lib import binary
+    bad, n = [], 0
+    for bits in (8, 16, 24, 40, 64, 128):
+        d = C.Bitwise(C.Bytes(bits))
+        n += 1
+        if not (type(d).__name__ == 'Transformed' and d.decodefunc is binary.bytes2bits and d.encodefunc is binary.bits2bytes and d.decodeamount == bits // 8 == d.encodeamount):
+            bad.append('Bitwise(Bytes(%d))' % bits)
+    for size in (1, 2, 3, 5, 8):
+        d = C.Bytewise(C.Bytes(size))
+        n += 1
+        if not (type(d).__name__ == 'Transformed' and d.decodefunc is binary.bits2bytes and d.encodefunc is binary.bytes2bits and d.decodeamount == size * 8 == d.encodeamount):
+            bad.append('Bytewise(Bytes(%d))' % size)
+    d = C.Bitwise(C.GreedyBytes)
+    n += 1
+    if not (type(d).__name__ == 'Restreamed' and d.decoder is binary.bytes2bits and d.decoderunit == 1 and d.encoder is binary.bits2bytes and d.encoderunit == 8
+            and [d.sizecomputer(k) for k in (0, 8, 16, 24)] == [0, 1, 2, 3]):
+        bad.append('Bitwise(GreedyBytes)')
+    d = C.Bytewise(C.GreedyBytes)
+    n += 1
+    if not (type(d).__name__ == 'Restreamed' and d.decoder is binary.bits2bytes and d.decoderunit == 8 and d.encoder is binary.bytes2bits and d.encoderunit == 1
+            and [d.sizecomputer(k) for k in (0, 1, 2, 3)] == [0, 8, 16, 24]):
+        bad.append('Bytewise(GreedyBytes)')
+    for name, w in (('Bit', 1), ('Nibble', 4), ('Octet', 8)):
+        f = getattr(C, name)
+        n += 1
+        if not (type(f).__name__ == 'BitsInteger' and f.length == w and f.signed is False and f.swapped is False):
+            bad.append(name)
+    return [('Bitwise/Bytewise: implementation chosen by sizedness, verified helpers in both directions, units 1/8; Bit/Nibble/Octet widths', n, bad)]
